@@ -99,6 +99,7 @@ class Profile:
     offset_continue: bool = True
     in_partial: str = ""  # "render": generating a body that may be rendered (include is forbidden there)
     dynamic_partial_names: bool = True
+    max_path_segments: int = 3
 
 
 class Gen:
@@ -145,7 +146,7 @@ class Gen:
                 segs.append({"p": {"k": "path", "segs": [{"s": self.name()}]}})
         else:
             segs.append({"s": self.name()})
-        n = self.pick([0, 0, 0, 1, 1, 2, 3])
+        n = min(self.pick([0, 0, 0, 1, 1, 2, 3]), self.p.max_path_segments)
         for _ in range(n):
             c = self.r.random()
             if c < 0.55:
